@@ -234,8 +234,11 @@ def run_check(pid, tier, repo, seed, opts):
                                                          (standin or {}).get('result', 'not run')))
     ev = {'property_id': pid, 'tier': tier if tier in ('quick', 'thorough') else 'quick', 'seed': seed, 'level': level, 'coverage': cov,
           'assumptions': assumptions, 'wall_s': round(time.time() - t0, 2), 'violations': len(seen)}
-    os.makedirs(os.path.join(ROOT, 'evidence'), exist_ok=True)
-    json.dump(ev, open(os.path.join(ROOT, 'evidence', pid + '.json'), 'w'), indent=1, default=str)
+    # evidence/<id>.json is only ever written from a run against /repo itself; runs against scratch copies
+    # (seeded changes, canaries) go to evidence_scratch/ which is not committed
+    evdir = os.path.join(ROOT, 'evidence' if os.path.realpath(repo) == os.path.realpath('/repo') else 'evidence_scratch')
+    os.makedirs(evdir, exist_ok=True)
+    json.dump(ev, open(os.path.join(evdir, pid + '.json'), 'w'), indent=1, default=str)
     # ---- output
     print('%s: %d proof units, %d obligations, %d discharged, %d failed, %d undecided; functions under contract: %d; wall %.1fs'
           % (pid, len({o["unit"] for o in obs}), len(obs), len(discharged), len(sat), len(unknown) + len(undecided_units), len(funcs), time.time() - t0))
